@@ -72,6 +72,10 @@ func genRun(r *hx.Rand, aligned bool) input {
 	in := input{Kind: "run", GIn: gs[r.Intn(4)], GOut: gs[r.Intn(4)], TCap: r.Range(1, 3), ICap: r.Range(1, 6), OCap: r.Range(1, 6)}
 	mx := max(in.GIn, in.GOut)
 	in.BufSize = mx * uint64(r.Range(1, 4))
+	if r.Chance(1, 5) { // buffers below the larger granularity (whole multiples of the smaller one)
+		mn := min(in.GIn, in.GOut)
+		in.BufSize = mn * uint64(r.Range(1, int(2*mx/mn)))
+	}
 	msz := 256
 	in.MemIn, in.MemOut = randBytes(r, msz), randBytes(r, msz)
 	nmoves := r.Range(1, 3)
@@ -172,6 +176,9 @@ func gen(r *hx.Rand, tier string) []json.RawMessage {
 		hx.J(directed(64, 256, 512, 100, 60)), // DESIGN §1: never acknowledged
 		hx.J(directed(64, 64, 128, 128, 40)),  // the aligned neighbour of the first one
 		hx.J(directed(16, 64, 32, 128, 80)),   // buffer smaller than the destination granularity
+		hx.J(directed(64, 16, 16, 128, 120)),  // buffer smaller than the SOURCE granularity only: streams, exact
+		hx.J(directed(64, 16, 48, 128, 120)),  // ... not a multiple of it either
+		hx.J(directed(32, 8, 24, 96, 120)),
 		hx.J(directedOverlap(16)),             // same side, destination overlapping the source 16 bytes further: smeared
 		hx.J(directedOverlap(64)),             // the same move with a buffer that reads the whole source ahead: exact
 	}
